@@ -1,5 +1,5 @@
 #![recursion_limit = "4096"]
-#![allow(unused_parens)]
+#![allow(unused_parens, unused_braces)]
 mod args;
 mod gen;
 mod hist;
